@@ -43,6 +43,7 @@ func init() {
 			c.min("R-PARENTKNOWN", 3)
 			c.ruleNonEmptyFrag()
 			c.min("R-NONEMPTYFRAG", 4)
+			c.min("R-CHAIN/completed", 1)
 		})
 	register("C33", "explicit-panic reachability from every network decoder (R-NOPANIC), guarded slice-to-array conversions and slicing (R-SLICE2ARRAY), short-read/allocation rules of the SCALE decoder they funnel into (R-READFULL, R-ALLOC)",
 		"Decides, for the decoders of block announcements, handshakes, transactions, block requests/responses, state and warp-sync requests, light messages and GRANDPA messages: no explicit panic() is reachable in the module call graph (static + CHA + reflect edges of pkg/scale) except those tabled as unreachable; every conversion of a peer-supplied slice to a fixed-size array and every constant-bound reslice of such a slice is dominated by a length check; the SCALE primitives they use check their read counts and bound their allocations (same rules as C12, with the recorded byte-string findings). "+
